@@ -106,6 +106,17 @@ func TestMakeReplays(t *testing.T) {
 	write("C09", "c09", "aggregate-inside-scalar-call", "select str(count(1)) failed with Cannot find function count when it ran", &c09Case{Stmt: &lib.Stmt{Kind: "select", Fields: []lib.SelField{{E: lib.Call("str", lib.Call("count", lib.Int(1)))}}, Where: lib.Bin("!=", lib.Key(), lib.Str("zz"))}, Pairs: abc, Batch: 2})
 	write("C06", "c06", "buildexecutor-non-select", "BuildExecutor(\"put ('k', 'v')\") panicked", &c06Case{Query: "put ('k', 'v')", Pairs: abc})
 
+	// ---- second audit wave ------------------------------------------------------------
+	write("C14", "c14", "fault-in-second-subscript", "json(value)['a'][key ^= 1] was accepted and failed on the first row", &c14Case{Raw: "select key where json(value)['a'][key ^= 1] = 'x'", Mutant: true, Fault: "fault-in-second-subscript", Pairs: abc})
+	write("C14", "c14", "aggregate-in-aggregate-argument", "select count(1) as c, sum(c) was accepted and failed with Cannot find function count", &c14Case{Raw: "select count(1) as c, sum(c) where key ^= 'a'", Mutant: true, Fault: "aggregate-inside-aggregate-argument", Pairs: abc})
+	write("C14", "c14", "key-as-put-key", "put (key, 'v') was accepted and wrote the empty key", &c14Case{Raw: "put (key, 'v')", Mutant: true, Fault: "key-as-put-key", Pairs: abc})
+	write("C14", "c14", "boolean-literal-operand", "key = 'a' & true was refused", &c14Case{Raw: "select * where key = 'a' & true", Pairs: abc})
+	write("C14", "c14", "not-operand-of-comparison", "!(key = 'a') = false was refused", &c14Case{Raw: "select * where !(key = 'a') = false", Pairs: abc})
+	write("C15", "c15name", "backquoted-name-printed-bare", "str(`key`) = 'key' printed as (str(key) = 'key')", &c15NameCase{Query: "select * where str(`key`) = 'key'", Pairs: []lib.Pair{{K: "a", V: "1"}, {K: "key", V: "2"}}})
+	write("C16", "c16", "tab-between-words", "where\\tkey was one name", &c16Case{Query: "where\tkey = 'a'"})
+	write("C16", "c16", "newline-between-words", "select *\\nwhere\\nkey was lexed with where\\nkey as one name", &c16Case{Query: "select *\nwhere\nkey = 'a'"})
+	write("C16", "c16", "non-utf8-byte-in-word", "a\\xff was turned into a + U+FFFD (four bytes for two)", &c16Case{Query: "a\xff = 1"})
+
 	write("C03", "c03", "limit-skip-boundary", "limit 2,2 with batch size 2 returned rows 0-1", &c03Case{Stmt: &lib.Stmt{Kind: "select", Star: true, Where: lib.Bin("!=", lib.Key(), lib.Str("zz")), Lim: &lib.Limit{Start: 2, Count: 2, Two: true}}, Pairs: abc, Batch: 2, Batch2: 32})
 	write("C03", "c03", "in-split-row", "'1' in split(value, ',') failed row at a time only", &c03Case{Stmt: &lib.Stmt{Kind: "select", Fields: []lib.SelField{{E: lib.Key()}, {E: lib.Call("split", lib.Value(), lib.Str(","))}}, Where: lib.InList(lib.Str("1"), lib.Call("split", lib.Value(), lib.Str(",")))}, Pairs: abc, Batch: 2, Batch2: 32})
 	write("C03", "c03", "list-index-row", "list(1,2,3)[1] failed row at a time only", &c03Case{Stmt: &lib.Stmt{Kind: "select", Fields: []lib.SelField{{E: lib.Index(lib.Call("list", lib.Int(1), lib.Int(2), lib.Int(3)), 1)}}, Where: lib.Bin("^=", lib.Key(), lib.Str("a"))}, Pairs: abc, Batch: 2, Batch2: 32})
